@@ -22,7 +22,7 @@ RULE = ("generated signatures (<= 5 parameters over positional-only / positional
 ASSUMPTIONS = ["payload values already have the annotated types (coercion is not part of the property)", "Pydantic v1 converter not exercised",
                "payload keys never collide with dependency parameter names"]
 EVAL_COUNTER = "bindings_judged"
-REQUIRED = ["jobs_whose_parameter_names_are_framework_words", "bindings_judged", "shape_empty_string", "shape_missing_required", "shape_extra", "converters_compared", "outputs_roundtripped", "e2e_default_converter", "bindings_with_off_type_default_used", "rewritten_bucket_steps", "positional_catch_all_jobs"]
+REQUIRED = ["consecutive_jobs_of_one_catch_all_actor", "jobs_whose_parameter_names_are_framework_words", "bindings_judged", "shape_empty_string", "shape_missing_required", "shape_extra", "converters_compared", "outputs_roundtripped", "e2e_default_converter", "bindings_with_off_type_default_used", "rewritten_bucket_steps", "positional_catch_all_jobs"]
 CASE_TIMEOUT = 120
 
 
@@ -369,6 +369,17 @@ async def e2e(loop, case, out, stats, fps):
             for aname in ((f"render_{lab_}", f"render_kw_{lab_}") if lab_ == "basic" else (f"render_{lab_}",)):
                 named_jobs.append((aname, dict(WORDS)))
                 await Job(aname, id_=f"named-{aname}", args=dict(WORDS), store_result=False, _connection=conn).enqueue()
+        # one actor, several jobs in a row: what one job's payload carried is not there for the next one
+        seq_calls = []
+
+        async def tagger(doc="none", *rest, lang="en", **tags):
+            seq_calls.append((doc, rest, lang, dict(tags)))
+
+        rb.actor(name="tagger")(tagger)
+        seq_jobs = [({"colour": "red", "size": 3}, ("none", (), "en", {"colour": "red", "size": 3})), ({}, ("none", (), "en", {})), ({"doc": "d2"}, ("d2", (), "en", {})),
+                    ({"shape": "round"}, ("none", (), "en", {"shape": "round"})), ({"lang": "de"}, ("none", (), "de", {})), (None, ("none", (), "en", {}))]
+        for si, (sa, _w) in enumerate(seq_jobs):
+            await Job("tagger", id_=f"seq{si}", args=sa, store_result=False, _connection=conn).enqueue()
         # entries without a parameter of their name go to *rest in the order the producer wrote them (dicts and dataclasses
         # alike): not alphabetical here
         import dataclasses as _dc
@@ -395,7 +406,7 @@ async def e2e(loop, case, out, stats, fps):
             chain_calls[cname] = []
             register_bucket_chain_actor(rt, cname, conn, chain_calls[cname], f"{cname}-args")
             await Job(cname, id_=f"{cname}-1", args={"step": 1, "note": "first", "extra": 7}, args_id=f"{cname}-args", use_args_bucketer=True, store_result=False, _connection=conn).enqueue()
-        w = Worker(routers=[r, rb], messages_limit=len(plans) + n_catch + 4 + len(rest_jobs) + len(named_jobs), tasks_limit=1, handle_signals=[], _connection=conn)
+        w = Worker(routers=[r, rb], messages_limit=len(plans) + n_catch + 4 + len(rest_jobs) + len(named_jobs) + len(seq_jobs), tasks_limit=1, handle_signals=[], _connection=conn)
         try:
             await asyncio.wait_for(w.run(), 60)
         except asyncio.TimeoutError:
@@ -406,6 +417,12 @@ async def e2e(loop, case, out, stats, fps):
             want = [{"step": 1, "note": "first", "extra": 7}, {"step": 2, "note": "none", "extra": None}]
             if calls_ != want:
                 out.append(V("bound_wrong" if len(calls_) == 2 else "spurious_failure", f"{cname.split('_')[1]}/rewritten-argument-bucket", f"two steps sharing the argument bucket id {cname}-args (rewritten by step 1): called with {calls_}, expected {want}"))
+        stats["bindings_judged"] += len(seq_jobs)
+        stats["consecutive_jobs_of_one_catch_all_actor"] += len(seq_jobs)
+        if seq_calls != [w_ for _a, w_ in seq_jobs]:
+            first_bad = next((i for i, (g, (_a, w_)) in enumerate(zip(seq_calls, seq_jobs)) if g != w_), len(seq_calls))
+            out.append(V("extras_misplaced" if len(seq_calls) == len(seq_jobs) else "spurious_failure", "basic/consecutive-jobs", f"jobs {[a for a, _w in seq_jobs]} for f(doc='none', *rest, lang='en', **tags), one after another through one "
+                         f"worker: job #{first_bad} was called with {seq_calls[first_bad] if first_bad < len(seq_calls) else '<not run>'}, expected {seq_jobs[first_bad][1] if first_bad < len(seq_jobs) else '-'}"))
         stats["bindings_judged"] += len(named_jobs)
         stats["jobs_whose_parameter_names_are_framework_words"] += len(named_jobs)
         if len(named_calls) != len(named_jobs) or any(got != WORDS for _n, got in named_calls):
